@@ -335,6 +335,8 @@ def run(chk, tier):
         inprog = io and d.get('discr(%s)' % KIND) == kinds.index('InProgress')
         # on a trace that decided `err` is the IoError variant, `err` and `Error::IoError(<its payload>)` are the same value
         want = 'Result::Ok(unit)' if inprog else (('Result::Err(Error::IoError(err#IoError.0))', 'Result::Err(err)') if io else 'Result::Err(err)')
+        if io and ('discr(%s)' % KIND) not in d:
+            want = 'a decision on the kind of the I/O error — this trace decides only %s' % sorted(k_ for k_ in d if k_ != 'discr(err)')
         _row(chk, 'R5', 'in_progress:io=%s,inprogress=%s' % (io, inprog), f, val, want)
     f, outs = table(r'ErrorMapper::addr_in_use$', [('sym', 'err'), ('sym', 'addr')])
     for o in outs:
@@ -345,6 +347,9 @@ def run(chk, tier):
         inner = d.get('discr(field:0(%s))' % KIND)
         aiu = std and isinstance(inner, int)
         want = 'Error::AddressInUse(addr)' if aiu else (('Error::IoError(err#IoError.0)', 'err') if io else 'err')
+        if io and ('discr(%s)' % KIND) not in d:
+            # an I/O error passed through without its kind being looked at (e.g. only for one IoError variant): address-in-use from that source is not mapped
+            want = 'a decision on the kind of the I/O error (whichever call produced it) — this trace decides only %s' % sorted(k_ for k_ in d if k_ != 'discr(err)')
         _row(chk, 'R5', 'addr_in_use:io=%s,std=%s,kind=%s' % (io, std, inner if isinstance(inner, int) else 'other'), f, val, want)
         if aiu and inner != 8:     # std::io::ErrorKind::AddrInUse has discriminant 8 in this toolchain's std
             chk.notes.append('addr_in_use matches std::io::ErrorKind discriminant %s' % inner)
